@@ -260,5 +260,7 @@ class Mk(Op):
 
 
 def ops():
+    import common
+    common.foreign_configurations()
     import recmm
     return [Iter(), IterText(), Notations(), Mk(), recmm.RecMMOp(PROP, "mmiter", ["mmrmk", "mmriter", "mmriter", "mmriter"], 500)]
